@@ -78,6 +78,12 @@ def classify(out, verdicts, byid):
     known = [json.loads(k) for k in out.known]
     for v in verdicts:
         rec = byid[v["id"]]
+        if "drift" in v:
+            out.drift += 1
+            ex = out.extra.setdefault("drift_examples", [])
+            if len(ex) < 5:
+                ex.append({"input": rec["e"], "flatten_returned": rec["out"][0]})
+            continue
         pats = patterns(rec["e"])
         for b in v["bad"]:
             cl = list(b["cl"])
@@ -108,7 +114,9 @@ def run(tier, seed, out):
     gen = kit.run_tlc("C11_Gen", f"C11_Gen_{tier}")
     kit.require_clean(gen, "C11 generation / oracle laws")
     out.add_tlc(gen)
-    cases = [p for p in gen.printed() if "e" in p]
+    printed = gen.printed()
+    cases = [p for p in printed if "e" in p]
+    out.extra["design_level_failures_on_model"] = sum(1 for p in printed if "design" in p)
     for i, c in enumerate(cases):
         c["id"] = i
     kit.log(f"C11: TLC generated {len(cases)} trees ({gen.wall:.1f}s)")
